@@ -79,7 +79,8 @@ def execute(plan, scn):
         if not viol_b:
             run.unconfirmed_timeouts = 1
             viol = []
-    if viol and run.gave_up and known_mod.listed(_known(), plan.prop, "F4"):
+    # (not conditioned on having *observed* the give-up warning: a refactor may report it differently)
+    if viol and known_mod.listed(_known(), plan.prop, "F4"):
         from . import counterfactual as CF
         try:
             restore = CF.lift_reduction_bound()
